@@ -65,4 +65,14 @@ PROPS = {
         trusted=["protobuf and multiaddr codecs", "the message sender (C11) delivers the response unchanged"],
         exhaustive={"quick": False, "thorough": False},
     ),
+    "C13": dict(
+        pkg=".", test="TestVerifC13", model="C13", level="proof", diff_is_failure=True,
+        rule="a case is a node in one of the four mode options plus 4-16 events: local-reachability events emitted on "
+             "the real event bus, DHT streams opened on inbound and outbound connections (inbound and outbound "
+             "streams), PING requests on new and already-open streams; after every event mode, handler registration, "
+             "the request's fate and the set of open streams are compared; non-trivial = >=2 mode changes and a "
+             "request on an open stream; distinct = distinct case text",
+        trusted=["libp2p eventbus", "simnet fake host/stream + synctest quiescence"],
+        shards={"quick": 8, "thorough": 16},
+    ),
 }
